@@ -1154,29 +1154,48 @@ func c17r5(c *Ctx) {
 // proxy. A store through such a pointer makes what the NEXT generation produces depend on which proxies were served
 // before (and races with concurrent generations). For every store (field store or map update) in the generation graph
 // whose target is a field of an API message (istio.io/api, istio.io/client-go, k8s.io/api, gateway-api) the object written to must be
-// FRESH: allocated here, the result of a copying constructor (DeepCopy / Clone / ShallowCopy* / proto.Clone / a module
-// function all of whose results are fresh), a phi of fresh values, a parameter that every caller feeds a fresh value,
-// or loaded from a cell / field whose every store in the function is fresh.
+// FRESH: allocated here, the result of a copying constructor (DeepCopy / Clone / ShallowCopy* / proto.Clone), the result
+// of a module function all of whose results are fresh (evaluated with THIS call's arguments), a phi of fresh values, a
+// parameter that every feasible caller feeds a fresh value, or loaded from a cell / field whose every reaching store is
+// fresh. A pointer loaded from a field that was never stored here is fresh only if its holder is DEEP-fresh (a deep copy
+// or a zero-valued allocation - not a shallow copy, whose inner messages are still the shared ones).
+// Feasible caller: when the store lies under one edge of a test `P(params...)` with P free of effects, a call site that
+// lies under the opposite edge of `P(corresponding arguments...)` in its caller cannot reach the store and is skipped
+// (the east-west gateway case: the caller passes no DestinationRule policy exactly when the callee's `terminate` holds).
 var c17r6Exceptions = map[string]string{
 	"pilot/pkg/networking/core.buildGatewayListenerTLSContext|ServerTLSSettings.CipherSuites": "normalises the Gateway server's cipher list in place with FilterCipherSuites, which is idempotent (filter + dedupe of an already filtered list is the identity): the value generation reads is the same before and after the write, so no output depends on the history. Still a write to shared state (benign race).",
 }
 
-type freshAn struct {
-	p       *Prog
-	callers map[*ssa.Function][]ssa.CallInstruction
-	retMemo map[*ssa.Function]int // 0 unknown, 1 computing, 2 fresh, 3 not
+type callCtx struct {
+	call   *ssa.Call
+	caller *ssa.Function
+	parent *callCtx
 }
 
-var freshCtorName = func(name string) bool {
-	for _, pre := range []string{"DeepCopy", "Clone", "ShallowCopy", "shadowCopy", "shallowCopy", "CloneVT", "Copy"} {
+type freshAn struct {
+	p        *Prog
+	callers  map[*ssa.Function][]ssa.CallInstruction
+	inFlight map[*ssa.Function]bool
+	skipSite func(callee *ssa.Function, cs ssa.CallInstruction) bool
+	pure     map[*ssa.Function]int
+}
+
+func copyCtorKind(name string) int { // 0 none, 1 shallow, 2 deep
+	for _, pre := range []string{"DeepCopy", "Clone", "CloneVT"} {
 		if strings.HasPrefix(name, pre) {
-			return true
+			return 2
 		}
 	}
-	return false
+	for _, pre := range []string{"ShallowCopy", "shadowCopy", "shallowCopy", "Copy"} {
+		if strings.HasPrefix(name, pre) {
+			return 1
+		}
+	}
+	return 0
 }
 
-func (a *freshAn) fresh(v ssa.Value, fn *ssa.Function, depth int, seen map[ssa.Value]bool) bool {
+// fresh: v is an object created for this generation (deep: and so is everything reachable from it).
+func (a *freshAn) fresh(v ssa.Value, fn *ssa.Function, depth int, seen map[ssa.Value]bool, ctx *callCtx, deep bool) bool {
 	if v == nil || depth < 0 {
 		return false
 	}
@@ -1186,66 +1205,84 @@ func (a *freshAn) fresh(v ssa.Value, fn *ssa.Function, depth int, seen map[ssa.V
 	seen[v] = true
 	switch x := v.(type) {
 	case *ssa.Alloc:
-		return true
+		return true // zero-valued; what is stored into it later is judged at the loads
 	case *ssa.Const:
 		return true // nil
 	case *ssa.MakeMap, *ssa.MakeSlice:
 		return true
 	case *ssa.TypeAssert:
-		return a.fresh(x.X, fn, depth, seen)
+		return a.fresh(x.X, fn, depth, seen, ctx, deep)
 	case *ssa.ChangeType:
-		return a.fresh(x.X, fn, depth, seen)
+		return a.fresh(x.X, fn, depth, seen, ctx, deep)
 	case *ssa.Convert:
-		return a.fresh(x.X, fn, depth, seen)
+		return a.fresh(x.X, fn, depth, seen, ctx, deep)
 	case *ssa.Extract:
 		if call, ok := x.Tuple.(*ssa.Call); ok {
-			return a.callFresh(call, x.Index, depth)
+			return a.callFresh(call, x.Index, fn, depth, ctx, deep)
 		}
 		return false
 	case *ssa.Call:
-		return a.callFresh(x, 0, depth)
+		return a.callFresh(x, 0, fn, depth, ctx, deep)
 	case *ssa.Phi:
 		for _, e := range x.Edges {
-			if !a.fresh(e, fn, depth, seen) {
+			if !a.fresh(e, fn, depth, seen, ctx, deep) {
 				return false
 			}
 		}
 		return true
 	case *ssa.Parameter:
+		pi := paramIndex(fn, x)
+		if os.Getenv("VERIF_DEBUG_C17R6") != "" {
+			fmt.Fprintf(os.Stderr, "      param %s of %s ctx=%v depth=%d callers=%d\n", x.Name(), fn.Name(), ctx != nil, depth, len(a.callers[fn]))
+		}
+		if ctx != nil && ctx.call != nil && ctx.call.Call.StaticCallee() == fn {
+			// evaluated for one known call: the actual argument, in the caller's frame
+			if pi >= len(ctx.call.Call.Args) {
+				return false
+			}
+			return a.fresh(ctx.call.Call.Args[pi], ctx.caller, depth, map[ssa.Value]bool{}, ctx.parent, deep)
+		}
 		if depth == 0 {
 			return false
 		}
-		pi := paramIndex(fn, x)
-		n := 0
+		n, skipped := 0, 0
 		for _, cs := range a.callers[fn] {
 			par := cs.Parent()
 			if isWrapperFn(par) || isGenericOrigin(par) || strings.HasSuffix(a.p.Fset.Position(par.Pos()).Filename, "_test.go") {
 				continue
 			}
+			if os.Getenv("VERIF_DEBUG_C17R6") != "" {
+				_, isCall := cs.(*ssa.Call)
+				fmt.Fprintf(os.Stderr, "        site %s isCall=%v skip=%v\n", a.p.Fset.Position(cs.Pos()), isCall, a.skipSite != nil)
+			}
 			if _, isCall := cs.(*ssa.Call); !isCall {
 				return false
 			}
+			if a.skipSite != nil && a.skipSite(fn, cs) {
+				skipped++
+				continue
+			}
 			n++
-			if pi >= len(cs.Common().Args) || !a.fresh(cs.Common().Args[pi], par, depth-1, map[ssa.Value]bool{}) {
+			if pi >= len(cs.Common().Args) || !a.fresh(cs.Common().Args[pi], par, depth-1, map[ssa.Value]bool{}, nil, deep) {
 				return false
 			}
 		}
-		return n > 0
+		return n > 0 || skipped > 0
 	case *ssa.UnOp:
 		if x.Op != token.MUL {
 			return false
 		}
-		return a.cellFresh(x.X, x, fn, depth, seen)
+		return a.cellFresh(x.X, x, fn, depth, seen, ctx, deep)
 	case *ssa.FieldAddr:
 		// address of an embedded struct: as fresh as its container
-		return a.fresh(x.X, fn, depth, seen)
+		return a.fresh(x.X, fn, depth, seen, ctx, deep)
 	}
 	return false
 }
 
-// cellFresh: every store in fn to the address (same cell / same field of the same base) stores a fresh value, and there
-// is at least one (or the containing object itself is fresh: its fields were made by the copying constructor).
-func (a *freshAn) cellFresh(addr ssa.Value, load *ssa.UnOp, fn *ssa.Function, depth int, seen map[ssa.Value]bool) bool {
+// cellFresh: the value loaded from addr. Every store that reaches the load stores a fresh value; if the value the cell
+// had on entry is visible, the holder must be deep-fresh.
+func (a *freshAn) cellFresh(addr ssa.Value, load *ssa.UnOp, fn *ssa.Function, depth int, seen map[ssa.Value]bool, ctx *callCtx, deep bool) bool {
 	isSt := func(ins ssa.Instruction) (*ssa.Store, bool) {
 		st, ok := ins.(*ssa.Store)
 		if ok && (st.Addr == addr || sameValue(st.Addr, addr)) {
@@ -1253,12 +1290,11 @@ func (a *freshAn) cellFresh(addr ssa.Value, load *ssa.UnOp, fn *ssa.Function, de
 		}
 		return nil, false
 	}
-	// reaching stores: walk backwards from the load; a path ends at the first store to the address it meets
 	var reaching []*ssa.Store
 	initialVisible := false
 	type pos struct {
 		b *ssa.BasicBlock
-		i int // scan instructions i-1 .. 0
+		i int
 	}
 	visited := map[*ssa.BasicBlock]bool{}
 	st := []pos{{load.Block(), instrIndex(load)}}
@@ -1288,32 +1324,33 @@ func (a *freshAn) cellFresh(addr ssa.Value, load *ssa.UnOp, fn *ssa.Function, de
 		}
 	}
 	for _, s := range reaching {
-		if !a.fresh(s.Val, fn, depth, seen) {
+		if !a.fresh(s.Val, fn, depth, seen, ctx, deep) {
 			return false
 		}
 	}
-	if !initialVisible && len(reaching) > 0 {
-		return true
-	}
-	// the value the cell / field had on entry is visible: as fresh as the object that holds it
-	if fa, isFA := addr.(*ssa.FieldAddr); isFA {
-		if _, isAlloc := fa.X.(*ssa.Alloc); isAlloc {
-			return len(reaching) > 0 // a local struct: zero value otherwise
-		}
-		return a.fresh(fa.X, fn, depth, seen)
-	}
-	if _, isAlloc := addr.(*ssa.Alloc); isAlloc {
+	if !initialVisible {
 		return len(reaching) > 0
+	}
+	// the value the cell / field had on entry is visible
+	switch x := addr.(type) {
+	case *ssa.Alloc:
+		return true // zero value
+	case *ssa.FieldAddr:
+		if _, isAlloc := x.X.(*ssa.Alloc); isAlloc {
+			return true // field of a local struct: zero value
+		}
+		return a.fresh(x.X, fn, depth, seen, ctx, true)
 	}
 	return false
 }
 
-func (a *freshAn) callFresh(call *ssa.Call, idx int, depth int) bool {
-	if bi, ok := call.Call.Value.(*ssa.Builtin); ok {
-		return bi.Name() == "append" && false
+func (a *freshAn) callFresh(call *ssa.Call, idx int, fn *ssa.Function, depth int, ctx *callCtx, deep bool) bool {
+	if _, ok := call.Call.Value.(*ssa.Builtin); ok {
+		return false
 	}
+	kindOK := func(k int) bool { return k == 2 || k == 1 && !deep }
 	if call.Call.IsInvoke() {
-		return freshCtorName(call.Call.Method.Name())
+		return kindOK(copyCtorKind(call.Call.Method.Name()))
 	}
 	sc := call.Call.StaticCallee()
 	if sc == nil {
@@ -1323,32 +1360,94 @@ func (a *freshAn) callFresh(call *ssa.Call, idx int, depth int) bool {
 	if o := sc.Origin(); o != nil {
 		name = o.Name()
 	}
-	if freshCtorName(name) || strings.HasPrefix(name, "New") {
-		return true
+	if k := copyCtorKind(name); k != 0 {
+		return kindOK(k)
 	}
-	if !isIstioFunc(sc) || len(sc.Blocks) == 0 || depth == 0 {
+	if !isIstioFunc(sc) || len(sc.Blocks) == 0 {
+		return strings.HasPrefix(name, "New") && !deep
+	}
+	if depth == 0 || a.inFlight[sc] {
 		return false
 	}
-	switch a.retMemo[sc]*10 + idx {
-	}
-	key := sc
-	if st := a.retMemo[key]; st == 1 {
-		return true
-	}
-	a.retMemo[key] = 1
-	ok := true
+	a.inFlight[sc] = true
+	defer delete(a.inFlight, sc)
+	sub := &callCtx{call: call, caller: fn, parent: ctx}
 	for _, b := range sc.Blocks {
 		r, isR := b.Instrs[len(b.Instrs)-1].(*ssa.Return)
 		if !isR || idx >= len(r.Results) {
 			continue
 		}
-		if !a.fresh(retVal(r, idx), sc, depth-1, map[ssa.Value]bool{}) {
-			ok = false
-			break
+		if !a.fresh(retVal(r, idx), sc, depth-1, map[ssa.Value]bool{}, sub, deep) {
+			return false
 		}
 	}
-	a.retMemo[key] = 0
+	return true
+}
+
+// isPure: nothing reachable from P (module-bounded) writes a field or a map.
+func (a *freshAn) isPure(P *ssa.Function) bool {
+	if st, ok := a.pure[P]; ok {
+		return st == 1
+	}
+	a.pure[P] = 2
+	reach := a.p.CG().Reach([]*ssa.Function{P}, nil)
+	ok := len(reach) < 200
+	if ok {
+		eff := effectsOf(reach)
+		ok = len(eff.Writes) == 0
+		for f := range reach {
+			eachInstr(f, func(ins ssa.Instruction) {
+				if _, isMU := ins.(*ssa.MapUpdate); isMU {
+					ok = false
+				}
+			})
+		}
+	}
+	if ok {
+		a.pure[P] = 1
+	}
 	return ok
+}
+
+// guardsOf: pure predicates over fn's parameters one of whose edges dominates block b: (P, parameter indices, truth value).
+type predGuard struct {
+	P      *ssa.Function
+	params []int
+	truth  bool
+}
+
+func (a *freshAn) guardsOf(fn *ssa.Function, b *ssa.BasicBlock) []predGuard {
+	var out []predGuard
+	for _, i := range allIfs(fn) {
+		v, neg := stripNot(i.Cond)
+		call, ok := v.(*ssa.Call)
+		if !ok {
+			continue
+		}
+		P := call.Call.StaticCallee()
+		if P == nil || !isIstioFunc(P) || !a.isPure(P) {
+			continue
+		}
+		var idxs []int
+		okArgs := true
+		for _, arg := range call.Call.Args {
+			par, isPar := arg.(*ssa.Parameter)
+			if !isPar {
+				okArgs = false
+				break
+			}
+			idxs = append(idxs, paramIndex(fn, par))
+		}
+		if !okArgs || len(idxs) == 0 {
+			continue
+		}
+		for e := 0; e < 2; e++ {
+			if underEdges(fn, b, []Edge{{i.Block(), e}}) {
+				out = append(out, predGuard{P, idxs, (e == 0) != neg})
+			}
+		}
+	}
+	return out
 }
 
 func isAPIType(t types.Type) (*types.Named, bool) {
@@ -1378,8 +1477,8 @@ func c17r6(c *Ctx) {
 	}
 	c.Check("generator entry points found", token.NoPos, len(entries) >= 15, fmt.Sprintf("%d Generate/GenerateDeltas methods in pilot/pkg/xds", len(entries)))
 	reach := p.CG().Reach(entries, nil)
-	a := &freshAn{p: p, callers: p.staticCallers(), retMemo: map[*ssa.Function]int{}}
-	nStores, nFresh := 0, 0
+	a := &freshAn{p: p, callers: p.staticCallers(), inFlight: map[*ssa.Function]bool{}, pure: map[*ssa.Function]int{}}
+	nStores, nFresh, nCorr := 0, 0, 0
 	var fns []*ssa.Function
 	for fn := range reach {
 		fns = append(fns, fn)
@@ -1400,7 +1499,6 @@ func c17r6(c *Ctx) {
 				target, pos = x.Addr, x.Pos()
 			case *ssa.MapUpdate:
 				target, pos = x.Map, x.Pos()
-				// the map value itself: loaded from a field of an API object?
 				if u, ok := target.(*ssa.UnOp); ok && u.Op == token.MUL {
 					target = u.X
 				} else {
@@ -1418,7 +1516,6 @@ func c17r6(c *Ctx) {
 				return
 			}
 			nStores++
-			// the object written to: walk embedded structs up to the pointer
 			obj := fa.X
 			for {
 				if f2, ok := obj.(*ssa.FieldAddr); ok {
@@ -1427,9 +1524,70 @@ func c17r6(c *Ctx) {
 				}
 				break
 			}
-			if a.fresh(obj, fn, 3, map[ssa.Value]bool{}) {
+			a.skipSite = nil
+			if a.fresh(obj, fn, 3, map[ssa.Value]bool{}, nil, false) {
 				nFresh++
 				return
+			}
+			// call sites that cannot reach this store (opposite edge of the same pure predicate in the caller)
+			guards := a.guardsOf(fn, ins.Block())
+			if os.Getenv("VERIF_DEBUG_C17R6") != "" {
+				fmt.Fprintf(os.Stderr, "C17R6 %s guards=%d obj=%T %v\n", stableFnName(fn), len(guards), obj, obj)
+				for _, i := range allIfs(fn) {
+					v, _ := stripNot(i.Cond)
+					if call, ok := v.(*ssa.Call); ok {
+						P := call.Call.StaticCallee()
+						if P != nil {
+							fmt.Fprintf(os.Stderr, "   if on call %s pure=%v under0=%v under1=%v\n", P.Name(), isIstioFunc(P) && a.isPure(P), underEdges(fn, ins.Block(), []Edge{{i.Block(), 0}}), underEdges(fn, ins.Block(), []Edge{{i.Block(), 1}}))
+						}
+					}
+				}
+			}
+			if len(guards) > 0 {
+				a.skipSite = func(callee *ssa.Function, cs ssa.CallInstruction) bool {
+					if os.Getenv("VERIF_DEBUG_C17R6") != "" {
+						fmt.Fprintf(os.Stderr, "   skipSite? callee=%s fn=%s site=%s\n", callee.Name(), fn.Name(), p.Fset.Position(cs.Pos()))
+					}
+					if callee != fn {
+						return false
+					}
+					g := cs.Parent()
+					for _, gd := range guards {
+						for _, j := range allIfs(g) {
+							v, neg := stripNot(j.Cond)
+							call, ok := v.(*ssa.Call)
+							if !ok || call.Call.StaticCallee() != gd.P || len(call.Call.Args) != len(gd.params) {
+								continue
+							}
+							same := true
+							for k, pi := range gd.params {
+								if pi >= len(cs.Common().Args) || !(call.Call.Args[k] == cs.Common().Args[pi] || sameValue(call.Call.Args[k], cs.Common().Args[pi])) {
+									same = false
+								}
+							}
+							if !same {
+								continue
+							}
+							// the edge on which P(...) has the OPPOSITE truth value
+							e := 0
+							if (!gd.truth) == neg {
+								e = 1
+							}
+							if underEdges(g, cs.Block(), []Edge{{j.Block(), e}}) {
+								return true
+							}
+						}
+					}
+					return false
+				}
+				okCorr := a.fresh(obj, fn, 3, map[ssa.Value]bool{}, nil, false)
+				a.skipSite = nil
+				if okCorr {
+					nFresh++
+					nCorr++
+					c.Infof("fresh for every feasible caller (callers under the opposite edge of the guarding predicate skipped): %s at %s", stableFnName(fn), p.Fset.Position(pos))
+					return
+				}
 			}
 			key := stableFnName(fn) + "|" + n.Obj().Name() + "." + fieldVar(fa.X.Type(), fa.Field).Name()
 			if why, ok := c17r6Exceptions[key]; ok {
@@ -1437,10 +1595,10 @@ func c17r6(c *Ctx) {
 				return
 			}
 			c.Check("generation stores only into configuration objects it created: "+key, pos, false,
-				"this store writes a field of a "+n.Obj().Pkg().Name()+"."+n.Obj().Name()+" that was not created here (not allocated, copied or cloned on every path that reaches the store): the object is configuration held by the push context and shared by every generation, so what later generations produce - for this and for other proxies - depends on whether this path ran before, and concurrent generations race on it")
+				"this store writes a field of a "+n.Obj().Pkg().Name()+"."+n.Obj().Name()+" that was not created here (not allocated, copied or cloned on every feasible path that reaches the store): the object is configuration held by the push context and shared by every generation, so what later generations produce - for this and for other proxies - depends on whether this path ran before, and concurrent generations race on it")
 		})
 	}
 	c.Check("stores into API messages in the generation graph found", token.NoPos, nStores >= 20 && nFresh >= 15, fmt.Sprintf("%d stores into API message fields in the generation graph, %d into fresh objects; fewer than confirmed by hand", nStores, nFresh))
-	c.Infof("stores into API message fields: %d, into fresh objects: %d", nStores, nFresh)
+	c.Infof("stores into API message fields: %d, into fresh objects: %d (of which %d by caller correlation)", nStores, nFresh, nCorr)
 	c.Floor(2)
 }
